@@ -29,6 +29,8 @@ pub enum Ins {
     LPop(u8),
     AddOne,
     Swap12,
+    /// the instruction carrying the `inv` modifier: the same instruction with the two directions exchanged
+    Inv(Box<Ins>),
 }
 
 fn list(l: &[u8]) -> String {
@@ -55,6 +57,7 @@ impl Ins {
             Ins::LPop(m) => format!("pop {}", flags(*m)),
             Ins::AddOne => "addone".to_string(),
             Ins::Swap12 => "axisswap order=2,1".to_string(),
+            Ins::Inv(i) => format!("{} inv", i.text()),
         }
     }
 }
@@ -192,6 +195,7 @@ impl Machine {
                 }
                 StepResult::Count(self.ops.len())
             }
+            Ins::Inv(i) => self.step(i, if fwd { &Inv } else { &Fwd }),
         }
     }
 
@@ -317,6 +321,26 @@ fn lists_upto2() -> Vec<Vec<u8>> {
     v
 }
 
+/// instructions carrying the inv modifier (C03: such a step behaves with the two directions exchanged)
+fn inverted_instructions() -> Vec<Ins> {
+    [
+        Ins::Push(vec![1]),
+        Ins::Push(vec![1, 2]),
+        Ins::Pop(vec![1]),
+        Ins::Pop(vec![2, 1]),
+        Ins::Flip(vec![1]),
+        Ins::Roll(3, 1),
+        Ins::Unroll(3, 1),
+        Ins::Swap,
+        Ins::LPush(0b0011),
+        Ins::LPop(0b0011),
+        Ins::AddOne,
+    ]
+    .into_iter()
+    .map(|i| Ins::Inv(Box::new(i)))
+    .collect()
+}
+
 pub fn full_alphabet(max_m: i64) -> Vec<Ins> {
     let mut a = vec![Ins::AddOne, Ins::Swap12, Ins::Swap];
     let mut ls = lists_upto2();
@@ -336,6 +360,7 @@ pub fn full_alphabet(max_m: i64) -> Vec<Ins> {
         a.push(Ins::LPush(mask));
         a.push(Ins::LPop(mask));
     }
+    a.extend(inverted_instructions());
     a
 }
 
@@ -369,6 +394,10 @@ pub fn reduced_alphabet() -> Vec<Ins> {
         Ins::LPop(0b0001),
         Ins::LPop(0b0011),
         Ins::LPop(0b0010),
+        Ins::Inv(Box::new(Ins::Push(vec![1, 2]))),
+        Ins::Inv(Box::new(Ins::Pop(vec![2, 1]))),
+        Ins::Inv(Box::new(Ins::Roll(3, 1))),
+        Ins::Inv(Box::new(Ins::LPush(0b0011))),
     ]
 }
 
@@ -488,6 +517,7 @@ fn key_for(clause: &str, prog: &[Ins]) -> String {
             Ins::LPop(_) => "legacy-pop".to_string(),
             Ins::AddOne => "addone".to_string(),
             Ins::Swap12 => "axisswap".to_string(),
+            Ins::Inv(i) => format!("{} inv", key_for("", std::slice::from_ref(i)).rsplit(": ").next().unwrap_or("")),
         })
         .collect();
     format!("{clause} / minimal program shape: {}", shape.join(" | "))
@@ -546,7 +576,8 @@ fn bfs(rep: &Report, max_depth: usize, max_stack: usize, max_m: i64, budget_s: f
     let ctx = Minimal::default();
     let alphabet: Vec<Ins> = full_alphabet(max_m)
         .into_iter()
-        .filter(|i| !matches!(i, Ins::AddOne | Ins::Swap12 | Ins::LPush(_) | Ins::LPop(_)))
+        // (the inv modifier is honoured by the enclosing pipeline, not by the raw step functions the hook exposes)
+        .filter(|i| !matches!(i, Ins::AddOne | Ins::Swap12 | Ins::LPush(_) | Ins::LPop(_) | Ins::Inv(_)))
         .collect();
     let ops: Vec<(Ins, Op)> = alphabet
         .iter()
